@@ -89,23 +89,25 @@ theorem sync_before_events_and_schedules (h : Hook) (sc : List Bool) :
       execCtxs pre = execCtxs (hookPlan stopFact h sc) ∧
       unlocked pre = h.kube.map (·.name) ∧ Ev.enableSched h.name ∉ pre) ∧
     ∀ (hooks : List Hook) (s : St), ∃ new, (step stopFact hooks s).log = s.log ++ new ∧
-      (new = [] ∨ (∃ h, new = [.enableSched h]) ∨ (∃ h, new = [.enableKube h]) ∨
+      (new = [] ∨ (∃ h, new = [.enableSched h]) ∨ (∃ h, new = [.enableKube h] ∨ ∃ k, new = [.enableKubeFail h k]) ∨
        (∃ h cs ms, new = [.skip h cs, .unlock ms]) ∨ (∃ h cs, new = [.exec h true cs]) ∨
        (∃ h cs, new = [.exec h false cs]) ∨ (∃ h cs ms, new = [.exec h false cs, .unlock ms])) := by
   refine ⟨?_, fun hooks s => step_new_events stopFact hooks s⟩
-  refine ⟨if h.kube.isEmpty then [] else .enableKube h.name :: (syncPlan stopFact h sc h.kube).1, rfl, ?_, ?_, ?_⟩
+  refine ⟨if h.kube.isEmpty then [] else enableFailLog h ++ .enableKube h.name :: (syncPlan stopFact h sc h.kube).1,
+    rfl, ?_, ?_, ?_⟩
   · rw [hookPlan, execCtxs_append]
     by_cases hsch : h.sched <;> simp [hsch, execCtxs]
   · by_cases hk : h.kube.isEmpty
     · have : h.kube = [] := by simpa using hk
       simp [unlocked, this]
-    · simp only [hk, Bool.false_eq_true, if_false, unlocked]
+    · simp only [hk, Bool.false_eq_true, if_false, unlocked_append, unlocked_enableFailLog, List.nil_append, unlocked]
       exact (syncPlan_delivers h _ h.kube (Nat.le_refl _) sc).2.1
   · intro hmem
     by_cases hk : h.kube.isEmpty
     · simp [hk] at hmem
-    · simp only [hk, Bool.false_eq_true, if_false, List.mem_cons] at hmem
-      rcases hmem with hmem | hmem
+    · simp only [hk, Bool.false_eq_true, if_false, List.mem_append, List.mem_cons] at hmem
+      rcases hmem with hmem | hmem | hmem
+      · simp [enableFailLog] at hmem
       · cases hmem
       · -- syncPlan writes only exec / skip / unlock
         have : ∀ (n : Nat) (bs : List KBinding), bs.length ≤ n → ∀ (sc : List Bool),
@@ -146,6 +148,39 @@ theorem sync_before_events_and_schedules (h : Hook) (sc : List Bool) :
                   · exact hret _ _ he
                   · exact ih _ hlen _ he
         exact this _ h.kube (Nat.le_refl _) sc hmem
+
+/-- **C06.3 under faults of the enabling itself, `sync_once_despite_enable_faults`.** The
+`EnableKubernetesBindings` task of a hook may fail any finite number of times, each time at any of its
+bindings (`h.kfail`, part of every `Hook` the theorems quantify over): the retried task ends with the
+Synchronization task of EVERY binding at the head of the queue, in binding order, whatever the earlier
+attempts had already set up — and the hook's whole block, failed attempts included, still delivers
+exactly `deliveredSpec` and unlocks every monitor exactly once, in binding order. -/
+theorem sync_once_despite_enable_faults (hooks : List Hook) (h : Hook) (hfind : findHook hooks h.name = h)
+    (rest : List Task) (fails : Nat → List Bool) (log : List Ev) (sc : List Bool) :
+    (∃ k, runFuel stopFact hooks k
+        { queue := { typ := .enableKube, hook := h.name, kfail := h.kfail } :: rest, fails := fails, log := log } =
+      { queue := h.kube.map (syncTask h.name) ++ rest, fails := fails,
+        log := log ++ enableFailLog h ++ [.enableKube h.name] }) ∧
+    okCtxs (hookPlan stopFact h sc) = deliveredSpec (fun b => h.v1 && b.execSync) h.kube ∧
+    unlocked (hookPlan stopFact h sc) = h.kube.map (·.name) := by
+  refine ⟨?_, ?_, ?_⟩
+  · obtain ⟨k, hk⟩ := run_enable_retry stopFact hooks h.name rest fails h.kfail log
+    rw [hfind] at hk
+    exact ⟨k, hk⟩
+  · by_cases hk : h.kube.isEmpty
+    · have : h.kube = [] := by simpa using hk
+      by_cases hsch : h.sched <;> simp [hookPlan, this, hsch, okCtxs, deliveredSpec]
+    · have hd := (syncPlan_delivers h _ h.kube (Nat.le_refl _) sc).1
+      rw [show stopFact = true from rfl]
+      by_cases hsch : h.sched <;>
+        simp [hookPlan, hk, hsch, okCtxs_append, okCtxs_enableFailLog, okCtxs, hd]
+  · by_cases hk : h.kube.isEmpty
+    · have : h.kube = [] := by simpa using hk
+      by_cases hsch : h.sched <;> simp [hookPlan, this, hsch, unlocked]
+    · have hd := (syncPlan_delivers h _ h.kube (Nat.le_refl _) sc).2.1
+      rw [show stopFact = true from rfl]
+      by_cases hsch : h.sched <;>
+        simp [hookPlan, hk, hsch, unlocked_append, unlocked_enableFailLog, unlocked, hd]
 
 /-- what `deliveredSpec` says, spelled out: a binding that must be skipped never appears; an
 ungrouped deliverable binding appears -/
@@ -235,7 +270,8 @@ theorem startup_before_everything (hooks : List Hook) (hs : PathSorted hooks) (f
         rcases List.mem_append.mp hc with hc | hc
         · by_cases hk : h.kube.isEmpty
           · simp [hk, execCtxs] at hc
-          · simp only [hk, Bool.false_eq_true, if_false, execCtxs] at hc
+          · simp only [hk, Bool.false_eq_true, if_false, execCtxs_append, execCtxs_enableFailLog,
+              List.nil_append, execCtxs] at hc
             have hd := (sync_once_or_skipped h (fails₁ h.name)).2.1 c hc
             obtain ⟨b, _, hb, _⟩ := deliveredSpec_mem _ _ c hd
             rw [hb]; rfl
@@ -262,6 +298,23 @@ example : (run [hA, hB, hC] sampleFails).queue = [] ∧
        .enableKube 1, .exec 1 true [.sync 1 1], .exec 1 false [.sync 1 1], .unlock [1], .skip 1 [.sync 2 0], .unlock [2],
        .exec 1 false [.sync 4 1, .sync 5 0], .unlock [3, 4, 5],
        .enableSched 1, .enableKube 3, .skip 3 [.sync 1 0], .unlock [1], .enableSched 3] := by decide
+
+/-- non-vacuity of `sync_once_despite_enable_faults`: the enabling of a hook with two bindings fails at its
+second binding, then at its first, then succeeds (the entry 7 names no binding: that attempt succeeds); both
+bindings get their Synchronization exactly once -/
+example :
+    let h : Hook := { name := 1, v1 := true, onStartup := none, sched := false,
+                      kube := [⟨1, 0, true⟩, ⟨2, 0, true⟩], kfail := [1, 0, 7] }
+    (run [h] (fun _ => [])).queue = [] ∧
+    (run [h] (fun _ => [])).log =
+      [.enableKubeFail 1 1, .enableKubeFail 1 0, .enableKube 1,
+       .exec 1 false [.sync 1 0], .unlock [1], .exec 1 false [.sync 2 0], .unlock [2]] := by decide
+
+/-- witness for the seeded defect "a retry skips the bindings whose monitor already exists": such an
+attempt would return only the second binding's task; `enableBindings` starts from the first binding -/
+example : enableBindings 1 none 0 [⟨1, 0, true⟩, ⟨2, 0, true⟩] =
+    some [syncTask 1 ⟨1, 0, true⟩, syncTask 1 ⟨2, 0, true⟩] ∧
+    enableBindings 1 (some 1) 0 [⟨1, 0, true⟩, ⟨2, 0, true⟩] = none := by decide
 
 example : deliveredSpec (fun b => hA.v1 && b.execSync) hA.kube = [.sync 1 1, .sync 4 1, .sync 5 0] := by decide
 
